@@ -27,16 +27,16 @@ Print Assumptions C03_source_len_guards.
    [acked r] = the reply the client read at this message's end-of-data (which by C04 is the reply to it) has
    an accepting code. *)
 Theorem C03_commits_exact : forall (F : fixes), dialogue_repaired F ->
-  forall cfg render caps script ms,
-  let o := run_case std_expects F cfg caps script ms render in
+  forall cfg render caps caps_tls script ms,
+  let o := run_case std_expects F cfg caps caps_tls script ms render in
   w_commits (o_world o) = batch_commits render ms (o_results o).
 Proof. exact commits_exact. Qed.
 Print Assumptions C03_commits_exact.
 
 (* every commit is the complete rendering of one message of the batch whose rendering succeeded *)
 Theorem C03_commits_complete : forall (F : fixes), dialogue_repaired F ->
-  forall cfg render caps script ms,
-  let o := run_case std_expects F cfg caps script ms render in
+  forall cfg render caps caps_tls script ms,
+  let o := run_case std_expects F cfg caps caps_tls script ms render in
   Forall (fun c => exists m from, In m ms /\ m_from m = Some from /\ snd (render m) = None /\
                    c = mkCommit from (m_rcpts m) (dotcanon (concat (fst (render m)))))
          (w_commits (o_world o)).
@@ -46,8 +46,8 @@ Print Assumptions C03_commits_complete.
 (* each message is committed at most once per call: the commit log is the image of a sub-batch (a selection
    of the messages, in order, each selected at most once) *)
 Theorem C03_at_most_once : forall (F : fixes), dialogue_repaired F ->
-  forall cfg render caps script ms,
-  let o := run_case std_expects F cfg caps script ms render in
+  forall cfg render caps caps_tls script ms,
+  let o := run_case std_expects F cfg caps caps_tls script ms render in
   exists mask : list bool, length mask = length ms /\
     w_commits (o_world o) = flat_map (commit_of render) (map fst (filter snd (combine ms mask))).
 Proof. exact commits_at_most_once. Qed.
@@ -58,16 +58,16 @@ Print Assumptions C03_at_most_once.
    delivered messages are committed; a message whose rendering fails is never delivered and — whenever the
    batch was attempted at all — carries an error. *)
 Theorem C03_delivered_iff : forall (F : fixes), dialogue_repaired F ->
-  forall cfg render caps script ms,
-  let o := run_case std_expects F cfg caps script ms render in
+  forall cfg render caps caps_tls script ms,
+  let o := run_case std_expects F cfg caps caps_tls script ms render in
   Forall (fun r => (r_delivered r = true <-> r_eod r = Some 250%N) /\
                    (r_delivered r = true -> acked r = true)) (o_results o).
 Proof. exact delivered_iff. Qed.
 Print Assumptions C03_delivered_iff.
 
 Theorem C03_render_failure_not_delivered : forall (F : fixes), dialogue_repaired F ->
-  forall cfg render caps script ms,
-  let o := run_case std_expects F cfg caps script ms render in
+  forall cfg render caps caps_tls script ms,
+  let o := run_case std_expects F cfg caps caps_tls script ms render in
   Forall2 (fun m r => snd (render m) <> None ->
              r_delivered r = false /\ acked r = false /\ (attempted (o_ret o) = true -> r_err r <> None))
           ms (o_results o).
